@@ -542,7 +542,9 @@ bool linear_run(const std::vector<int> &path) {
       bool same = d.r[0].box->is_bottom() == w.r[0].box->is_bottom() && d.r[0].box->is_bottom() == r.r[0].box->is_bottom();
       for (int v : {VX, VY, VZ})
         same = same && d.r[0].box->at(v) == w.r[0].box->at(v) && d.r[0].box->at(v) == r.r[0].box->at(v);
-      same = same && d.r[0].box->print() == w.r[0].box->print() && d.r[0].box->print() == r.r[0].box->print();
+      // printed forms are compared only where they contain no internal (generated) names
+      if (DOMNAME.rfind("term", 0) != 0)
+        same = same && d.r[0].box->print() == w.r[0].box->print() && d.r[0].box->print() == r.r[0].box->print();
       if (!same) {
         report("C16:wrapper-describes-something-else:linear", p, "direct " + d.r[0].box->print() + " wrapped " + w.r[0].box->print() + " ref " + r.r[0].box->print());
         return false;
